@@ -77,4 +77,89 @@ example : let σ := run H0 init demo
 
 example : (run H0 init (demo.take 4)).nObj = 4 ∧ ((run H0 init (demo.take 4)).obj 2).tag = .cell := by decide +kernel
 
+/-- ISOLATION ("derived objects are isolated snapshots").  In any reachable heap, a call changes the VALUE (`valOf`:
+cell = tree; slice = type, remaining bits, remaining referenced trees; builder = bits, referenced trees; caller-held
+array = its bits; caller-held list = its trees) of NO live object other than its own `self` (`recvOf op`: the slice
+being loaded from / the builder being stored to) - in particular never of a cell, of the object it was derived from,
+of its argument (`store_slice(s)` leaves `s`, `Cell(bits, refs)` leaves the caller's array and list), and `self` only
+when the call succeeds (a raising call changes nothing). -/
+theorem c08_isolated (H : Bytes → Bytes) (pre : List Op) (op : Op)
+    (hid : ∀ i ∈ opIds op, i < (run H init pre).nObj) (i : Nat) (hi : i < (run H init pre).nObj)
+    (hne : recvOf op = some i → (sem H (valOf (run H init pre)) op).2 = none) :
+    valOf (step H (run H init pre) op).1 i = valOf (run H init pre) i :=
+  step_isolated (inv_run (inv_init H) pre) op hid i hi hne
+
+/-- HISTORY INDEPENDENCE.  Every call's result VALUE and the new value of its `self` are `sem` - a function of the
+call and of the VALUES of its argument objects only (`sem_congr`).  Hence: take two arbitrary histories `h1`, `h2`
+and the same call applied to argument objects (`ρ` maps the object names of the first heap to those of the second)
+whose values agree - then the two results have equal values and `self` ends with equal values.  Nothing else of the
+heap (which calls came before, which containers are shared, ids, ...) can influence a result: no state is carried
+between calls. -/
+theorem c08_history_independent (H : Bytes → Bytes) (h1 h2 : List Op) (op : Op) (ρ : Nat → Nat)
+    (hid1 : ∀ i ∈ opIds op, i < (run H init h1).nObj) (hid2 : ∀ i ∈ opIds op, ρ i < (run H init h2).nObj)
+    (hv : ∀ i ∈ opIds op, valOf (run H init h1) i = valOf (run H init h2) (ρ i)) :
+    let r1 := step H (run H init h1) op
+    let r2 := step H (run H init h2) (renameOp ρ op)
+    outVal r1.1 r1.2 = outVal r2.1 r2.2 ∧ ∀ r, recvOf op = some r → valOf r1.1 r = valOf r2.1 (ρ r) :=
+  hist_indep (inv_run (inv_init H) h1) (inv_run (inv_init H) h2) op ρ hid1 hid2 hv
+
+/-- the result of every call is `sem` of the argument values (the refinement statement behind the previous theorem) -/
+theorem c08_refines_value_semantics (H : Bytes → Bytes) (pre : List Op) (op : Op)
+    (hid : ∀ i ∈ opIds op, i < (run H init pre).nObj) :
+    let σ := run H init pre
+    outVal (step H σ op).1 (step H σ op).2 = (sem H (valOf σ) op).1 ∧
+    (∀ w, (sem H (valOf σ) op).2 = some w → ∃ r, recvOf op = some r ∧ valOf (step H σ op).1 r = w) := by
+  intro σ
+  have r := step_sem (inv_run (inv_init H) pre) op hid
+  exact ⟨r.out, fun w hw => let ⟨r', a, _, b⟩ := r.recv w hw; ⟨r', a, b⟩⟩
+
+/-- HASHING / SERIALISING IS READ-ONLY AND IDEMPOTENT.  `hash`, `to_boc`, `order`, `serialize` (`observe`) leave the
+whole heap exactly as it was - every container, including the plain array a cell was constructed from - and calling
+them again gives the same result; the result is the hash of the cell's current tree value. -/
+theorem c08_observe_pure (H : Bytes → Bytes) (pre : List Op) (c : Nat) :
+    let σ := run H init pre
+    (step H σ (.observe c)).1 = σ ∧
+    (step H (step H σ (.observe c)).1 (.observe c)).2 = (step H σ (.observe c)).2 ∧
+    (c < σ.nObj → (σ.obj c).tag = .cell →
+      (step H σ (.observe c)).2 = .hash (σ.obj c).info.hash ∧ Cell.info H (σ.obj c).val = some (σ.obj c).info) := by
+  intro σ
+  have e : (step H σ (.observe c)).1 = σ := by simp only [step]; split <;> rfl
+  refine ⟨e, by rw [e], ?_⟩
+  intro hc ht
+  have hhas : σ.has c .cell = true := has_iff.mpr ⟨hc, ht⟩
+  exact ⟨by simp only [step, hhas, if_true], (inv_run (inv_init H) pre).coh.cohInfo c hc ht⟩
+
+/-- INPUTS UNTOUCHED.  An array or list the caller created (and possibly handed to `Cell(bits, refs)`, which keeps the
+very object as the cell's `.bits` / `.refs` - aliasing by design - or to `store_bits`), and likewise every cell,
+keeps its value through every later history: no transition writes a container pointed to by a cell or by a
+caller-held object.  (User code writing to it is outside the model.) -/
+theorem c08_inputs_untouched (H : Bytes → Bytes) (pre ops : List Op) (u : Nat)
+    (hu : u < (run H init pre).nObj) (ht : ((run H init pre).obj u).tag.owner = false) :
+    valOf (run H (run H init pre) ops) u = valOf (run H init pre) u :=
+  nonowner_run (inv_run (inv_init H) pre) ops u hu ht
+
+/-! Non-vacuity of the hypotheses of `c08_history_independent`: two DIFFERENT histories reach cells of equal value
+(`10110`, no refs) under different names (object 2 in the first heap, object 3 in the second, whose heap also holds a
+consumed slice and a grown builder); `begin_parse` (`derive · slice`) on either gives equal results. -/
+def hA : List Op := [.newBits [true, false, true, true, false], .newRefs [], .cellCtor 0 1 (-1)]
+def hB : List Op := [.builderNew, .storeBits 0 [true, false, true], .derive 0 .cell, .derive 1 .slice, .dropBits 2 1 false,
+  .storeBits 0 [true, false], .derive 0 .cell]
+example : (∀ i ∈ opIds (.derive 2 .slice), i < (run H0 init hA).nObj) ∧
+    (∀ i ∈ opIds (.derive 2 .slice), (fun _ => 3) i < (run H0 init hB).nObj) := by decide +kernel
+example : ((run H0 init hA).obj 2).tag = .cell ∧ ((run H0 init hB).obj 3).tag = .cell ∧
+    (run H0 init hA).bitsOf 2 = (run H0 init hB).bitsOf 3 ∧ (run H0 init hA).refsOf 2 = [] ∧ (run H0 init hB).refsOf 3 = [] ∧
+    ((run H0 init hA).obj 2).kind = ((run H0 init hB).obj 3).kind := by decide +kernel
+example : ∀ i ∈ opIds (.derive 2 .slice), valOf (run H0 init hA) i = valOf (run H0 init hB) ((fun _ => 3) i) := by
+  intro i hi
+  simp only [opIds, List.mem_singleton] at hi
+  subst hi
+  have e1 : ((run H0 init hA).obj 2).tag = .cell := by decide +kernel
+  have e2 : ((run H0 init hB).obj 3).tag = .cell := by decide +kernel
+  rw [valOf_cell' e1, valOf_cell' e2]
+  have a : (run H0 init hA).bitsOf 2 = (run H0 init hB).bitsOf 3 := by decide +kernel
+  have b : (run H0 init hA).refsOf 2 = [] := by decide +kernel
+  have c : (run H0 init hB).refsOf 3 = [] := by decide +kernel
+  have d : ((run H0 init hA).obj 2).kind = ((run H0 init hB).obj 3).kind := by decide +kernel
+  rw [a, b, c, d]; rfl
+
 end TonVerif.Properties.C08
